@@ -115,7 +115,7 @@ Fixpoint draw_planes (g : G) (ntab d ndim : nat) : list (mat (R:=R)) * G :=
 Fixpoint insert_nat (x : nat) (l : list nat) : list nat :=
   match l with
   | [] => [x]
-  | y :: t => if Nat.ltb x y then x :: l else if Nat.eqb x y then l else y :: insert_nat x t
+  | y :: t => if Nat.ltb x y then x :: y :: t else if Nat.eqb x y then y :: t else y :: insert_nat x t
   end.
 Definition nat_set (l : list nat) : list nat := fold_left (fun acc x => insert_nat x acc) l [].
 
